@@ -241,6 +241,9 @@ func heartbeat() {
 // statement's "accepted set == listed set" is checked at quiescence, then the clean-up lines (Ops) run.
 // Template "reload-loop": LoadFromFile over two alternating (large) files in a loop while Race runs in a loop.
 func runHammer(c Case) (res Result) {
+	if len(c.Ops) > 0 && c.Ops[0] == "stale-reload" {
+		return runStale(c)
+	}
 	im, err := newImpl(c.PSKLen, c.TCP, c.UDP, c.Init, false)
 	if err != nil {
 		res.HarnessErr = "hammer: registration failed: " + err.Error()
@@ -358,4 +361,90 @@ func runStarve(im *Impl, c Case, check func(int) bool) {
 			im.do(line)
 		}
 	}
+}
+
+// runStale: an acknowledged change whose save is due, against reloads. Real clock, started manager:
+// Race[0] (an add/update/delete) is acknowledged; LoadFromFile runs in a loop (as repeated reload
+// requests / SIGUSR1 would) until the debounced save (5 s) has rewritten the store file; then everything
+// is left alone and the three views are observed. A reload that read the old file just before the saver
+// replaced it must not roll the acknowledged change back. Reps = trials.
+func runStale(c Case) (res Result) {
+	for trial := 1; trial <= c.Reps; trial++ {
+		im, err := newImpl(c.PSKLen, c.TCP, c.UDP, c.Init, true)
+		if err != nil {
+			res.HarnessErr = "stale-reload: registration failed: " + err.Error()
+			return
+		}
+		im.cheapObs = true
+		ress := make([]string, len(c.Race))
+		for i, line := range c.Race {
+			ress[i] = im.do(line)
+		}
+		// the reload requests stop with the first one that returns after the store file has been replaced
+		// (a later reload would see a changed file and repair the damage, which is not the point here)
+		fi0, _ := os.Stat(im.path)
+		saved := false
+		var wg sync.WaitGroup
+		wg.Add(1)
+		go func() {
+			defer wg.Done()
+			deadline := time.Now().Add(9 * time.Second)
+			for time.Now().Before(deadline) {
+				im.ms.LoadFromFile()
+				if fi, err := os.Stat(im.path); err == nil && !os.SameFile(fi0, fi) {
+					saved = true
+					return
+				}
+			}
+		}()
+		for done := false; !done; {
+			heartbeat()
+			c := make(chan struct{})
+			go func() { wg.Wait(); close(c) }()
+			select {
+			case <-c:
+				done = true
+			case <-time.After(time.Second):
+			}
+		}
+		time.Sleep(50 * time.Millisecond)
+		if !saved {
+			res.HarnessErr = "stale-reload: the debounced save did not happen within 9 s"
+			im.Close()
+			return
+		}
+		o, err := im.observe()
+		im.Close()
+		if err != nil {
+			res.HarnessErr = err.Error()
+			return
+		}
+		if k, d := views(o, "race"); k != "" {
+			res.HammerFail = k
+			res.HammerInfo = fmt.Sprintf("trial %d: %s", trial, d)
+			return
+		}
+		or := &Oracle{}
+		lastKey, lastDetail := "", ""
+		for i, line := range c.Race { // the acknowledged changes must be listed; the file must hold the listed set
+			prev := or.prev
+			if k, d := or.step(line, ress[i], o); k != "" && lastKey == "" {
+				lastKey, lastDetail = k, d
+			}
+			or.prev = prev
+			or.havePrev = false
+		}
+		if lastKey == "" {
+			if es, ok := o.File.entries(); !ok || !sameSet(es, o.Creds) {
+				lastKey = "file-mismatch-after-save:race"
+				lastDetail = fmt.Sprintf("file holds %d users, listing %d users", len(es), len(o.Creds))
+			}
+		}
+		if lastKey != "" {
+			res.HammerFail = "stale-reload:" + strings.SplitN(lastKey, ":", 2)[0]
+			res.HammerInfo = fmt.Sprintf("trial %d: %v acknowledged as %v, reloads of the unchanged store file running until the save had happened; at quiescence: %s", trial, c.Race, ress, lastDetail)
+			return
+		}
+	}
+	return
 }
